@@ -1209,6 +1209,15 @@ def dbg_field(name, ty, a, form, struct_style):
             two.reverse()
         attrs.append("Debug(%s)" % ", ".join(two))
         return Field(name, "u8", attrs=attrs, debug=sem)
+    if a == "I":
+        # ignored AND given a method: ignore wins, nothing is shown and the method never runs
+        m = DBG_METHODS[form % 3]
+        sem["ignore"] = True
+        two = [["ignore", "ignore = true", "ignore(true)"][form % 3], spell_param("method", m, form // 3)]
+        if (form // 2) % 2:
+            two.reverse()
+        attrs.append("Debug(%s)" % ", ".join(two))
+        return Field(name, "u8", attrs=attrs, debug=sem)
     if a == "b" and struct_style:
         # ignored AND renamed: ignore wins, nothing is shown
         attrs.append(["Debug(ignore, name = zz)", "Debug(rename(zz), ignore)", 'Debug(name = "zz", ignore = true)'][form % 3])
@@ -1494,6 +1503,17 @@ def c14(tier, seed):
                   Field("c", "u8", attrs=["%s(%s)" % (car, ", ".join(perm))], ord={"method": meth, "rank": -9}), Field("d", "T1", ord={})]
             out.append(ord_program(c.pid(), "struct", "S", [Variant(None, "named" if k % 3 else "tuple", fs if k % 3 else [Field(None, f.ty, attrs=f.attrs, **f.sem) for f in fs])],
                                    md, ["T0", "T1"], k, "C14 %s parameter order `%s` / `%s`" % (car, ", ".join(perm), ", ".join(two)), prop="C14"))
+    # ignore together with method, in both orders and every ignore spelling: ignore wins whatever the order
+    for k, perm in enumerate(itertools.permutations(["method = crate::m::eq_a", "IGN"])):
+        for gi, ig in enumerate(("ignore", "ignore = true", "ignore(true)")):
+            pm = [x.replace("IGN", ig) for x in perm]
+            fs = [Field("a", "T0", eq={}), Field("b", "u8", attrs=["PartialEq(%s)" % ", ".join(pm)], eq={"ignore": True, "method": "crate::m::eq_a"})]
+            add(Program(c.pid(), "struct", "S", [Variant(None, "named", fs)], ["PartialEq"], generics=["T0"], inst={"T0": "u8"},
+                        focus={"PartialEq"}, note="C14 PartialEq parameter order `%s` (ignore wins)" % ", ".join(pm)))
+            if gi == k:
+                pm2 = [x.replace("eq_a", "hash_a") for x in pm]
+                fs = [Field("a", "u16", hash={}), Field("b", "u8", attrs=["Hash(%s)" % ", ".join(pm2)], hash={"ignore": True, "method": "crate::m::hash_a"})]
+                add(Program(c.pid(), "struct", "S", [Variant(None, "named", fs)], ["Hash"], focus={"Hash"}, note="C14 Hash parameter order `%s` (ignore wins)" % ", ".join(pm2)))
     for k, perm in enumerate(itertools.permutations(["method = crate::m::eq_a", "ignore = false"])):
         fs = [Field("a", "T0", eq={}), Field("b", "u8", attrs=["PartialEq(%s)" % ", ".join(perm)], eq={"method": "crate::m::eq_a"})]
         add(Program(c.pid(), "struct", "S", [Variant(None, "named", fs)], ["PartialEq"], generics=["T0"], inst={"T0": "u8"},
@@ -2428,6 +2448,44 @@ def wide(prop):
               Variant("V1", "named", [Field("a", "u8", attrs=["Hash(method = crate::m::hash_b)"], hash={"method": "crate::m::hash_b"}), Field("b", "u16", attrs=["Hash(ignore)"], hash={"ignore": True})]),
               Variant("V2", "unit", [])]
         out.append(Program(pid(), "enum", "E", vs, ["Hash"], focus={"Hash"}, note="wide: every hashed field of the enum uses a method"))
+
+    if prop == "C06":
+        # a field that is ignored AND carries a method, in structs (named, tuple, shown as the other style) and enum variants
+        kk = 0
+        for shape in ("named", "tuple"):
+            for assign in (("I",), ("n", "I"), ("I", "n", "I"), ("m", "I", "n")):
+                for nf in (None, shape != "named"):
+                    kk += 1
+                    if nf is not None and kk % 2:
+                        continue
+                    struct_style = (shape == "named") if nf is None else nf
+                    generics, fields = [], []
+                    for i, a in enumerate(assign):
+                        f = dbg_field(LONG[i] if shape == "named" else None, "T%d" % len(generics), a, kk + i, struct_style)
+                        if f.ty.startswith("T"):
+                            generics.append(f.ty)
+                        fields.append(f)
+                    if all(f.s("debug", "ignore") for f in fields):
+                        fields.append(dbg_field(LONG[len(fields)] if shape == "named" else None, "T%d" % len(generics), "n", kk, struct_style)); generics.append(fields[-1].ty)
+                    out.append(Program(pid(), "struct", "S", [Variant(None, shape, fields)], [dbg_type_meta("default", nf, kk) or "Debug"], generics=generics,
+                                       inst={g: "u8" for g in generics}, focus={"Debug"}, note="wide: ignore+method struct %s fields=%s named_field=%s" % (shape, "".join(assign), nf),
+                                       debug={"name": "default", "named_field": nf}))
+        vs = [Variant("V0", "tuple", [dbg_field(None, "T0", "I", 1, False), dbg_field(None, "T0", "n", 2, False)], debug={"name": True, "named_field": None}),
+              Variant("V1", "named", [dbg_field("a", "T0", "n", 3, True), dbg_field("b", "T0", "I", 4, True)], debug={"name": True, "named_field": None})]
+        out.append(Program(pid(), "enum", "E", vs, ["Debug"], generics=["T0"], inst={"T0": "u8"}, focus={"Debug"}, note="wide: ignore+method enum",
+                           debug={"name": "default", "named_field": None}))
+    if prop == "C02":
+        # wide raw pointers: their own == compares address AND length
+        PT = "*const [u8]"
+        for shape in ("named", "tuple"):
+            fs = [Field(LONG[0] if shape == "named" else None, PT, eq={}), Field(LONG[1] if shape == "named" else None, "u8", eq={})]
+            P = Program(pid(), "struct", "S", [Variant(None, shape, fs)], ["PartialEq"], focus={"PartialEq"}, note="wide: wide raw pointer field struct %s" % shape)
+            P.tags["no_verus"] = "raw pointer field: decided by Kani"
+            out.append(P)
+        vs = [Variant("V0", "tuple", [Field(None, PT, eq={})]), Variant("V1", "named", [Field("a", "u8", eq={}), Field("p", PT, eq={})]), Variant("V2", "unit", [])]
+        P = Program(pid(), "enum", "E", vs, ["PartialEq"], focus={"PartialEq"}, note="wide: wide raw pointer fields enum")
+        P.tags["no_verus"] = "raw pointer field: decided by Kani"
+        out.append(P)
 
     return out
 
